@@ -1,4 +1,13 @@
-"""C12 -- writing a model to an EPANET INP file and reading it back preserves it (writer/reader agreement)."""
+"""C12 -- writing a model to an EPANET INP file and reading it back preserves it (writer/reader agreement).
+
+Techniques (DESIGN 2b): T2 symbolic path enumeration of the section writers / readers (R-C12-2, -3, -4, -5, -6, -9, -12, and the
+format-spec location of -13; facts come from path conditions, events and values, some of them matched by regex / substring on the event
+text); T3 finite evaluation on fixtures, bounded to them (R-C12-7, -8, -10, -14, -15, -16 and the probe values of -13): sa/concrete.py
+Interp, except _sec_to_string / _str_time_to_sec which run in _shared._string_evaluator (sa/peval based); T1 (R-C12-1 call-name tables;
+R-C12-11 a PRESENCE / TEXT match only: a raise, the substrings AndCondition and OrCondition, an isinstance call on `.._condition_..` in
+add_control_condition -- the grouping of nested AND/OR is not analysed).  R-C12-14 and -15 are reader-only / constructor-only fixture
+checks, R-C12-16 is a clause of C03 (WNTRSimulator._setup_sim_options) hosted here; none of the three is a write/read round trip.
+"""
 import ast
 import copy
 import re
@@ -9,18 +18,19 @@ from ..peval import Evaluator, Lin, Obj, Unknown
 from ..inpx import Conv, IO, UTIL, find_convs, discriminators, placeholders, make_hook
 
 EXPLANATION = (
-    "Cross-checking the sibling implementations InpFile._write_X / _read_X: every to_si/from_si site is followed through the abstract "
-    "interpreter into the file column it is printed in (writer: format string token position) or parsed from (reader: element i of the split line) together with "
-    "the discriminating keywords / element types of its path; matched sites must be inverse conversions (same conversion class as computed by "
-    "C17's partial evaluator over all flow units, same flags such as darcy_weisbach / mass units / reaction order, opposite direction); a "
-    "conversion that exists on one side of a column only is reported; the reader's discriminant column must be the column the writer puts the "
-    "discriminator in; lines whose conversion depends on an option parsed from the same section are written after that option on every path; rule "
-    "conditions/actions use one attribute->unit map in all six writer/reader blocks; simple-control settings and thresholds likewise (whole-function "
-    "abstract execution of _write_controls / _read_control_line per valve type). Facts are taken from path conditions, events and values of the "
-    "abstract execution (locals substituted, helpers stepped into, lookup tables split per key), not from the text of the source. The version-2.0 "
-    "rules compare the lines the writer can produce for version=2.0 and =2.2. [TIMES], simple time controls, rule clock times, the time-string helpers "
-    "and the [DEMANDS] guard are decided by RUNNING writer and reader on mock objects in the concrete evaluator (sa/concrete.py; nothing of the "
-    "repository is imported) and comparing what comes back. Decides unit/field/keyword agreement of the two halves, not text precision or idempotence.")
+    "Writer / reader agreement of InpFile._write_X / _read_X. T1: R-C12-1 every section written is read and vice versa (call-name tables). T2, symbolic "
+    "path enumeration (locals substituted, helpers stepped into; some events matched by regex on their text): R-C12-2 every to_si/from_si site is "
+    "followed into the file column it is printed in / parsed from; matched sites are inverse conversions of the same class (C17's evaluator over "
+    "all flow units) and flags, incl. simple controls and the six rule blocks; R-C12-3 the reader tests the discriminator in the column the writer "
+    "prints it in; R-C12-4 reaction coefficients are written after their ORDER line; R-C12-5 MINIMUM / REQUIRED PRESSURE convert as Pressure; "
+    "R-C12-6 version 2.0 omits only the 2.2-only options (compared with a list of six labels in the module) and the overflow column; R-C12-9 mass "
+    "and flow units come from the options; R-C12-12 a tank's volume curve is printed in its column. T3, finite evaluation by the in-house "
+    "interpreter on fixtures, bounded to them: R-C12-7 time-string helpers (10 values, 27 strings) and [TIMES] round trip (72 clock times); R-C12-8 "
+    "simple time controls (16 instants) and rule clock times (72); R-C12-10 [DEMANDS] lines for 4 mock junctions; R-C12-14 _read_times on 64 "
+    "lines (reader only); R-C12-15 time-condition constructors on 11 strings each; R-C12-16 _setup_sim_options on 6 triples (a C03 clause). "
+    "R-C12-13 (T2 then T3): each converted number's format spec keeps as many significant digits as its sibling fields, on 7 probe values. "
+    "R-C12-11 (T1, presence / text match only): add_control_condition contains a raise, the names AndCondition / OrCondition and an isinstance on "
+    "_condition_; whether nested AND/OR grouping survives is NOT analysed. Decides unit/field/keyword agreement of the two halves, not idempotence.")
 RULE_TEXT = "one instance = one (section, column/keyword, discriminator) conversion pair, one discriminator, one ordering or one map entry"
 ASSUMPTIONS = ["[REPORT], [BACKDROP], [LABELS] are outside the statement", "write guards that omit default-valued lines rely on EPANET's defaults (inventoried only)"]
 
@@ -1366,6 +1376,9 @@ def run(repo, chk):
                    expected="%d line(s)%s" % (ndem, ", the first with category %s" % cat if cat else ""), found=lines)
 
     # ---------------------------------------------------------------- R-C12-11 rule conditions: grouping of AND / OR
+    # PRESENCE / TEXT MATCH ONLY: a Raise node somewhere in the function, the substrings AndCondition and OrCondition in its unparsed source and an
+    # isinstance call on an expression containing `_condition_`.  The grouping itself is never analysed (`rec` below is computed and not used), so the
+    # message of the instance says more than the rule decides.
     acc = repo.func(IO, "_EpanetRule.add_control_condition")
     chk.fn(acc)
     rec = [n for n in walk(acc) if isinstance(n, ast.If) and "OrCondition" in unparse(n.test) or (isinstance(n, ast.If) and "AndCondition" in unparse(n.test))]
